@@ -105,9 +105,13 @@ def _poisson_changepoints(counts, offset, penalty, min_counts, min_offset):
                 minval = cost[i]
                 argmin = i
         F[j] = minval
-        for i in set(C):  # prune
-            if cost[i] > F[j] + penalty:
-                C.pop(i)
+        # pruning is only valid if every segment is feasible: with a minimum
+        # size, a candidate that is currently dominated (or infeasible) may
+        # still start the optimal segment later on
+        if min_counts <= 0 and min_offset <= 0:
+            for i in set(C):  # prune
+                if cost[i] > F[j] + penalty:
+                    C.pop(i)
         C[j] = np.append(C[argmin], argmin)
 
     breaks = np.append(C[dim], dim).astype(np.int32)
